@@ -11,6 +11,9 @@ func Families(rep *mbt.Report, tier string) []corpus.Input {
 	var out []corpus.Input
 	seen := map[string]bool{}
 	for _, v := range modgen.Generate(rep, "*") {
+		if v.Fam == "spell" {
+			continue // C02 only (Spellings)
+		}
 		t := v.Text()
 		if seen[t] {
 			continue
@@ -22,4 +25,10 @@ func Families(rep *mbt.Report, tier string) []corpus.Input {
 }
 
 // Spellings returns inputs in non-canonical spellings (C02 only: LLVM does not arbitrate all of them).
-func Spellings(rep *mbt.Report, tier string) []corpus.Input { return nil }
+func Spellings(rep *mbt.Report, tier string) []corpus.Input {
+	var out []corpus.Input
+	for _, v := range modgen.Generate(rep, "spell") {
+		out = append(out, corpus.Input{Name: v.Label(), Origin: "tlc:Modules/spell", Text: v.Text(), Construct: v.Construct()})
+	}
+	return out
+}
